@@ -743,10 +743,22 @@ func (p *Peer) retryDoc(ctx context.Context, peerIDString string, docID string) 
 		if err != nil {
 			return err
 		}
+		// The original push carried the ID of the collection, which is the same for all its versions.
+		// The block only knows the schema version it was created at, so resolve the collection from it.
+		collectionID := head.block.Delta.GetSchemaVersionID()
+		cols, err := clientTxn.GetCollections(ctx, client.CollectionFetchOptions{
+			VersionID: immutable.Some(collectionID),
+		})
+		if err != nil && !errors.Is(err, corekv.ErrNotFound) {
+			return err
+		}
+		if len(cols) > 0 {
+			collectionID = cols[0].Version().CollectionID
+		}
 		updateEvent := event.Update{
 			DocID:        docID,
 			Cid:          head.cid,
-			CollectionID: head.block.Delta.GetSchemaVersionID(),
+			CollectionID: collectionID,
 			Block:        rawblock,
 			IsRetry:      true,
 		}
